@@ -291,6 +291,18 @@ Definition tcp_exit_callback_fault (tls : flavour) (item : stack_item) (e : exc)
   {| o_raises := f_exc r; o_closed := stream_close_pushed_first; o_hooks := [1; 2; 3; 2; 4]; o_logs := f_logs r;
      o_disc_called := true |}.
 
+(* ---------- the final, forced close of the client task ----------
+   lowlevel/api_async/servers/stream.py pushes aclose_forcefully(transport) at the bottom of the task's exit stack: what the
+   transport's aclose() lets out there is outside every per-client filter.  For the asyncio socket adapter the only thing
+   that can raise is the socket shutdown (transport.write_eof()), wrapped in a try whose clauses are [adapter_close]
+   (regenerated).  Scenario: the handler fails with e1 after a request (the peer is still connected, so write_eof() is
+   called) and the shutdown raises the naked kind k (ENOTCONN / EBADF are plain OSError, EPIPE is a ConnectionError...). *)
+Definition tcp_final_close_fault (f : flavour) (e1 : exc) (k : leaf) : outcome :=
+  let a := tcp_client_task f PHandleAfter e1 None in
+  let r := layers_run adapter_close (Naked k) in
+  {| o_raises := match f_exc r with Some x => Some x | None => o_raises a end;
+     o_closed := o_closed a; o_hooks := o_hooks a; o_logs := o_logs a; o_disc_called := o_disc_called a |}.
+
 (* ---------- set-up faults ---------- *)
 Inductive setup_stage := StConnect | StHandshake.
 
@@ -299,19 +311,25 @@ Definition setup_task (st : setup_stage) (e : exc) : outcome :=
   {| o_raises := f_exc r; o_closed := f_closed r; o_hooks := []; o_logs := []; o_disc_called := false |}.
 
 (* ---------- UDP ---------- *)
-Inductive upos := UBefore | UAfter | UThrownParse | UThrownTimeout | USecondYield | UDelay (d : delay).
-Definition all_upos : list upos := [UBefore; UAfter; UThrownParse; UThrownTimeout; USecondYield] ++ map UDelay all_delays.
+Inductive upos := UBefore | UAfter | UThrownParse | UThrownTimeout | USecondYield | UDelay (d : delay)
+  | UBurstBefore | UBurstAfter | UBurstQueued.   (* three datagrams of the address arrive in a burst; each handler generator fails
+                                      before its first yield / right after its request, without awaiting;
+                                      UBurstQueued: four datagrams, the first generator awaits before failing (the
+                                      three others are queued behind it) and those fail without awaiting *)
+Definition all_upos : list upos :=
+  [UBefore; UAfter; UThrownParse; UThrownTimeout; USecondYield; UBurstBefore; UBurstAfter; UBurstQueued] ++ map UDelay all_delays.
 Definition upos_code (p : upos) : Z :=
   match p with UBefore => 0 | UAfter => 1 | UThrownParse => 2 | UThrownTimeout => 3 | USecondYield => 4
-          | UDelay d => 20 + delay_code d end.
+          | UDelay d => 20 + delay_code d | UBurstBefore => 5 | UBurstAfter => 6 | UBurstQueued => 7 end.
 Definition upos_of_code (z : Z) : option upos :=
   match z with 0 => Some UBefore | 1 => Some UAfter | 2 => Some UThrownParse | 3 => Some UThrownTimeout
-          | 4 => Some USecondYield
+          | 4 => Some USecondYield | 5 => Some UBurstBefore | 6 => Some UBurstAfter | 7 => Some UBurstQueued
           | _ => match delay_of_code (z - 20) with Some d => Some (UDelay d) | None => None end end.
 Definition upos_hooks (p : upos) : list Z :=
   match p with
   | UBefore => [2] | UAfter => [2; 3] | UThrownParse | UThrownTimeout => [2; 3; 5] | USecondYield => [2; 3; 3]
   | UDelay d => match delay_error d with None => [2; 3; 3] | Some _ => [2; 3; 5] end
+  | UBurstBefore => [2; 2; 2] | UBurstAfter => [2; 3; 2; 3; 2; 3] | UBurstQueued => [2; 3; 2; 3; 2; 3; 2; 3]
   end.
 
 Inductive cstate := CNone | CRunning.
@@ -332,8 +350,17 @@ Definition udp_client_task_main (p : upos) (e : exc) : uoutcome :=
             end in
   let fresh := match r, st with None, CNone => true | _, _ => false end in
   {| u_raises := r; u_state := st; u_fresh := fresh;
-     u_hooks := upos_hooks p ++ (if fresh then [2; 3] else []);
-     u_logs := lg |}.
+     (* in a burst every one of the three generators fails the same way -- unless the first failure already escapes *)
+     u_hooks := match r, p with
+                | Some _, UBurstBefore => [2]
+                | Some _, (UBurstAfter | UBurstQueued) => [2; 3]
+                | _, _ => upos_hooks p ++ (if fresh then [2; 3] else [])
+                end;
+     u_logs := match r, p with
+               | None, (UBurstBefore | UBurstAfter) => lg ++ lg ++ lg
+               | None, UBurstQueued => lg ++ lg ++ lg ++ lg
+               | _, _ => lg
+               end |}.
 
 (* datagram.py __client_coroutine_inner_loop: "arm the yielded delay, pop and parse the next datagram" sits in a try whose
    handler turns what it catches into a ThrowAction ([udp_wait_clauses] = the classes it names); anything else leaves
